@@ -320,6 +320,15 @@ theorem C11_buildTree_is_instance (cfg : Cfg) (ts : List Ty) :
     ∀ k, k ∈ (loop1 cfg ts).idx ↔ IsNs (nsOf ts) k :=
   ⟨rfl, (inv1_loop1 cfg ts).idx⟩
 
+/-- The degenerate input: with no types `build_namespace_tree` returns `Namespace("")` — one namespace
+with the single empty component, no parent, no types, the namespace file directly in `outDir`. -/
+theorem C11_empty_type_list (cfg : Cfg) :
+    (buildTree cfg []).root = [[]] ∧ allNamespaces (buildTree cfg []) = [[[]]] ∧
+    allDatatypes (buildTree cfg []) = [] ∧ parentOf (buildTree cfg []).store [[]] = none ∧
+    pathOf cfg (buildTree cfg []).store [[]] = nsOutputPath cfg [[]] := by
+  simp [buildTree, buildWith, loop1, loop2, loop2By, finish, allNamespaces, allDatatypes, nsGen, typeGen,
+    depthFuel, maxLen, mkNode, nestedOf, typesOf, parentOf, pathOf, findNode]
+
 /-! ## Non-vacuity and regression witnesses -/
 
 section Examples
